@@ -34,4 +34,7 @@ def jobs(tier):
         js.append(Job('dom%s-%s/enf%d%d/%04d' % (format(d1, '03b'), format(d2, '03b'), e1, e2, i), 'C14_ov.cpp', 'h_ov', OV_UNITS, 100, params=scen(d1, e1, d2, e2, h), timeout=240,
                       desc='domains %s and %s of the 3-value pool, exactly-one enforced: %d/%d, history %s' % (format(d1, '03b'), format(d2, '03b'), e1, e2, h),
                       bounds={'values': 3, 'variables': 2, 'history': len(h)}))
-    return batch(js, 4)
+    big = [Job('large-domain/n%d' % n, 'C14_ov.cpp', 'h_big', OV_UNITS, 100, params=[n], timeout=300, mem=8,
+               desc='one object variable over %d values (grid encoding of exactly-one): exactly one value in every model, choosing a value leaves it alone in the domain' % n, bounds={'values': n})
+           for n in ((4, 5) if tier == 'quick' else (4, 5, 6, 7))]
+    return big + batch(js, 4)
